@@ -98,7 +98,7 @@ impl Drop for Tok {
             std::panic::panic_any(StopRun);
         }
         // injected fault: this destructor (it has run: the token is counted) unwinds
-        if ctx == seam::CTX_COLLECT && !std::thread::panicking() {
+        if (ctx == seam::CTX_COLLECT || ctx == seam::CTX_ARENA_DROP) && !std::thread::panicking() {
             if let Some(n) = l.drop_fault_in {
                 if n <= 1 {
                     l.drop_fault_in = None;
